@@ -63,8 +63,16 @@ def forest_errors(mods, seed, reload_, skip_same_ids=True):
         for recursive in (False, True):
             scope = all_variants(cont) if recursive else list(cont.variants.values())
             for arch in [None] + arches[:3] + ["src"]:
-                for ts in [None] + [[t] for t in types[:2]] + ([types] if types else []):
+                for ts in [None] + [[t] for t in types[:2]] + ([types] if types else []) + \
+                        ([["self"] + types, ["self"]] if hasattr(cont, "uid") else []):
                     got = cont.get_variants(arch=arch, types=ts, recursive=recursive)
+                    if ts and "self" in ts:
+                        # 'self' adds the variant the call is made on (once); everything else must still match the type filter
+                        if len([x for x in got if x is cont]) != 1:
+                            out.append("get_variants(types=%r) on %s does not return the variant itself exactly once" % (ts, cont.uid))
+                        if len(set(id(x) for x in got)) != len(got):
+                            out.append("get_variants(types=%r, recursive=%r) on %s returns a variant twice" % (ts, recursive, cont.uid))
+                        continue
                     if len(set(id(x) for x in got)) != len(got):
                         out.append("get_variants(arch=%r, types=%r, recursive=%r) on %s returns a variant twice" % (arch, ts, recursive, getattr(cont, "uid", "<top>")))
                     if [x.uid for x in got] != sorted(x.uid for x in got):
